@@ -909,12 +909,15 @@ func history(idx int, rng *vh.RNG, steps int) func(w *worker) {
 }
 
 // renewal: the old contract stops being revisable, the new one continues with the same roots.
-func renewal(idx int) func(w *worker) {
+func renewal(idx int, kind string, interleave bool) func(w *worker) {
 	return func(w *worker) {
 		w.ensure(3)
 		old := w.cid
 		newc := old + 1
-		k := w.begin(fmt.Sprintf("renew%d", idx), old, newc)
+		k := w.begin(fmt.Sprintf("%s%d", kind, idx), old, newc)
+		if interleave {
+			k.c.Name += "-contended"
+		}
 		k.run("fund", variants()[0], false)
 		k.observe()
 		// renew through the real client
@@ -926,19 +929,78 @@ func renewal(idx int) func(w *worker) {
 			return
 		}
 		st := k.state(old)
-		fs := &rhpx.FundSigner{W: w.rig.W, PK: rhpx.Key(rhpx.RenterKeyID)}
-		res, err := rhp4.RPCRenewContract(ctx, w.rig.T, w.rig.CM, fs, w.rig.CM.TipState(), settings.Prices, settings.WalletAddress, st.Revision, proto4.RPCRenewContractParams{
-			ContractID:  w.s.CID(old),
-			Allowance:   types.Siacoins(100000),
-			Collateral:  types.Siacoins(200000),
-			ProofHeight: st.Revision.ProofHeight + 2,
-		})
+		fs := &rhpx.HookSigner{FundSigner: &rhpx.FundSigner{W: w.rig.W, PK: rhpx.Key(rhpx.RenterKeyID)}}
+		if interleave {
+			// between receiving the host's inputs and sending its signatures the renter completes (tries
+			// to complete) another revising RPC on the same contract on a second stream
+			fs.Hook = func() {
+				base := st
+				w.s.SetBase(old, &base)
+				defer w.s.SetBase(old, nil)
+				r := w.s.Fund(rhpx.FundArgs{Cid: old, Deposits: []rhpx.Deposit{{Account: acctA, Amount: types.Siacoins(40)}}, Sig: rhpx.Honest, CurIDs: w.cur})
+				w.rig.Rec.Tee(true) // keep recording for the renewal itself
+				if r.Cls == "ok" {
+					k.c.Oracle("lock-not-exclusive:fund-during-"+kind, "a fund RPC was committed on a contract that a %s in flight holds locked", kind)
+				}
+			}
+		}
+		w.rig.Rec.Take()
+		w.rig.Rec.Tee(true)
+		var res struct {
+			Contract   rhp4.ContractRevision
+			RenewalSet rhp4.TransactionSet
+		}
+		var expectNew func(latest types.V2FileContract) types.V2FileContract
+		switch kind {
+		case "renew":
+			params := proto4.RPCRenewContractParams{ContractID: w.s.CID(old), Allowance: types.Siacoins(100000), Collateral: types.Siacoins(200000), ProofHeight: st.Revision.ProofHeight + 2}
+			var r rhp4.RPCRenewContractResult
+			r, err = rhp4.RPCRenewContract(ctx, w.rig.T, w.rig.CM, fs, w.rig.CM.TipState(), settings.Prices, settings.WalletAddress, st.Revision, params)
+			res.Contract, res.RenewalSet = r.Contract, r.RenewalSet
+			expectNew = func(l types.V2FileContract) types.V2FileContract {
+				rn, _ := proto4.RenewContract(l, settings.Prices, settings.WalletAddress, params)
+				return rn.NewContract
+			}
+		case "refresh-full":
+			params := proto4.RPCRefreshContractParams{ContractID: w.s.CID(old), Allowance: types.Siacoins(1000), Collateral: types.Siacoins(2000)}
+			var r rhp4.RPCRefreshContractResult
+			r, err = rhp4.RPCRefreshContractFullRollover(ctx, w.rig.T, w.rig.CM, fs, w.rig.CM.TipState(), settings.Prices, settings.WalletAddress, st.Revision, params)
+			res.Contract, res.RenewalSet = r.Contract, r.RenewalSet
+			expectNew = func(l types.V2FileContract) types.V2FileContract {
+				rn, _ := proto4.RefreshContractFullRollover(l, settings.Prices, settings.WalletAddress, params)
+				return rn.NewContract
+			}
+		default:
+			params := proto4.RPCRefreshContractParams{ContractID: w.s.CID(old), Allowance: types.Siacoins(100000), Collateral: types.Siacoins(200000)}
+			var r rhp4.RPCRefreshContractResult
+			r, err = rhp4.RPCRefreshContractPartialRollover(ctx, w.rig.T, w.rig.CM, fs, w.rig.CM.TipState(), settings.Prices, settings.WalletAddress, st.Revision, params)
+			res.Contract, res.RenewalSet = r.Contract, r.RenewalSet
+			expectNew = func(l types.V2FileContract) types.V2FileContract {
+				rn, _ := proto4.RefreshContractPartialRollover(l, settings.Prices, settings.WalletAddress, params)
+				return rn.NewContract
+			}
+		}
 		w.rig.T.WaitIdle()
-		calls := w.rig.Rec.Take()
+		calls := w.rig.Rec.TakeTee()
+		w.rig.Rec.Take()
 		if err != nil {
-			k.c.Oracle("harness-setup", "renew through the real client failed: %v", err)
+			k.c.Oracle("harness-setup", "%s through the real client failed: %v", kind, err)
 			k.done(false)
 			return
+		}
+		// the renewal must be built from the LATEST revision of the old contract
+		latest := k.state(old).Revision
+		for _, c := range calls {
+			if c.Kind == "renew" && c.Err == nil {
+				want, got := expectNew(latest), c.Revision
+				if !got.RenterOutput.Value.Equals(want.RenterOutput.Value) || !got.HostOutput.Value.Equals(want.HostOutput.Value) ||
+					!got.MissedHostValue.Equals(want.MissedHostValue) || !got.TotalCollateral.Equals(want.TotalCollateral) ||
+					got.Filesize != want.Filesize || got.Capacity != want.Capacity || got.FileMerkleRoot != want.FileMerkleRoot {
+					k.c.Oracle("renewal-not-from-latest-revision:"+kind, "the %s contract has payouts %v/%v (missed %v, collateral %v); built from the latest revision %d they are %v/%v (missed %v, collateral %v)", kind,
+						got.RenterOutput.Value, got.HostOutput.Value, got.MissedHostValue, got.TotalCollateral, latest.RevisionNumber,
+						want.RenterOutput.Value, want.HostOutput.Value, want.MissedHostValue, want.TotalCollateral)
+				}
+			}
 		}
 		w.s.AddContract(newc, res.Contract.ID)
 		nst := k.state(newc)
@@ -961,7 +1023,7 @@ func renewal(idx int) func(w *worker) {
 			}
 		}
 		if !seen {
-			k.c.Oracle("renew-not-recorded", "RPCRenewContract succeeded but the contractor saw no renewal")
+			k.c.Oracle("renew-not-recorded", "the %s succeeded but the contractor saw no renewal", kind)
 		}
 		if after := k.state(old); after.Revision != st.Revision || !after.Renewed || after.Revisable {
 			k.c.Oracle("renewed-contract-still-revisable", "after the renewal the old contract is revisable=%v renewed=%v", after.Revisable, after.Renewed)
@@ -989,7 +1051,7 @@ func renewal(idx int) func(w *worker) {
 			k.run(rpc, variants()[0], false)
 			k.observe()
 		}
-		k.done(true, "kind:renewal")
+		k.done(true, "kind:renewal", "renewal:"+kind, fmt.Sprintf("contended:%v", interleave))
 	}
 }
 
@@ -1196,7 +1258,8 @@ func Run(r *vh.Run) {
 		}
 		if i%100 == 13 {
 			jobs = append(jobs, failedRenew(i, []string{"renew", "refresh-full", "refresh-partial"}[(i/100)%3]))
-			jobs = append(jobs, renewal(i))
+			rk := []string{"refresh-full", "renew", "refresh-partial"}[(i/100)%3]
+			jobs = append(jobs, renewal(i, rk, (i/100)%2 == 0))
 		}
 	}
 	nw := min(runtime.NumCPU(), 12)
